@@ -116,6 +116,12 @@ Definition supported (d : str) (c : construct) : bool :=
   | KInterval => negb (is_ d [d_sqlite; d_mssql])
   end.
 
+(* engines whose '...' string literals read a backslash as an escape character (vendor lexical grammar: MySQL without
+   NO_BACKSLASH_ESCAPES, BigQuery, ClickHouse, Snowflake, Redshift; the same five sqlparser marks with
+   supports_string_literal_backslash_escape).  There a literal emitted with a single backslash in front of its closing
+   quote swallows the quote: the text is no longer the statement that was generated. *)
+Definition reads_backslash_escape (d : str) : bool := is_ d [d_bigquery; d_clickhouse; d_mysql; d_redshift; d_snowflake].
+
 Definition unsupported_uses (d : str) (q : query) (extra : list construct) : list construct :=
   filter (fun c => negb (supported d c)) (uses_query q ++ extra).
 Definition dialect_ok (d : str) (q : query) (extra : list construct) : bool :=
